@@ -16,4 +16,9 @@ package stringSplitter
 //@   requires len(s.Delim) >= 1
 //@   requires s.next <= len(s.S)
 //@   modifies s.next
-//@   ensures s.next <= len(s.S)
+//@   ensures [window] s.next <= len(s.S)
+//@   ensures ok == (old(s.next) >= 0)
+//@   ensures old(s.next) < 0 ==> ret == "" && s.next == old(s.next)
+//@   ensures old(s.next) >= 0 && str_index(s.S[old(s.next):], s.Delim) < 0 ==> ret == s.S[old(s.next):] && s.next == -1
+//@   ensures old(s.next) >= 0 && str_index(s.S[old(s.next):], s.Delim) >= 0 ==> ret == s.S[old(s.next):old(s.next) + str_index(s.S[old(s.next):], s.Delim)]
+//@   ensures old(s.next) >= 0 && str_index(s.S[old(s.next):], s.Delim) >= 0 ==> s.next == old(s.next) + str_index(s.S[old(s.next):], s.Delim) + len(s.Delim)
